@@ -21,6 +21,11 @@ BLOCKS = {
     "sec-fw-bg": (sec(' full-width="full-width"' + BG), "FullSec"),
     "sec-class": (sec(' css-class="kk"'), "Sec"),
     # a single column holding a right-aligned text: the section writes its Outlook table through a code path of its own
+    # the attributes that decide the structure arrive through an mj-class (defined in the head of every block document)
+    "sec-fw-class": (sec(' mj-class="fwc"'), "FullSec"),
+    "sec-bg-class": (sec(' mj-class="bgc"'), "SecBg"),
+    "wrap-fw-class": ('<mj-wrapper mj-class="fwc">' + sec() + "</mj-wrapper>", "FullWrap"),
+    "sec-bg-right": (sec(BG, inner='<mj-column><mj-text align="right">SBR</mj-text></mj-column>'), "SecBg"),
     "sec-right": (sec(inner='<mj-column><mj-text align="right">SR</mj-text></mj-column>'), "Sec"),
     "sec-2col": (sec(inner=(COL % "A") + (COL % "B")), "Sec"),
     "sec-group": (sec(inner="<mj-group>" + (COL % "A") + (COL % "B") + "</mj-group>"), "Sec"),
@@ -40,11 +45,15 @@ BLOCKS = {
     "raw": ("<mj-raw><div class=\"rawtop\">R</div></mj-raw>", "Other"),
 }
 QUICK14 = ["sec", "sec-fw", "sec-bg", "sec-fw-bg", "sec-class", "sec-2col", "sec-group", "sec-empty", "wrap", "wrap-fw", "wrap-bg-fwchild",
-           "hero", "raw", "sec-raw", "sec-right"]
+           "hero", "raw", "sec-raw", "sec-right", "sec-fw-class", "wrap-fw-class", "sec-bg-class"]
+
+
+HEAD = ('<mj-head><mj-attributes><mj-class name="fwc" full-width="full-width" /><mj-class name="bgc" background-url="https://x.test/bg.png" />'
+        '</mj-attributes></mj-head>')
 
 
 def doc_of(names):
-    return "<mjml><mj-body>%s</mj-body></mjml>" % "".join(BLOCKS[n][0] for n in names)
+    return "<mjml>%s<mj-body>%s</mj-body></mjml>" % (HEAD, "".join(BLOCKS[n][0] for n in names))
 
 
 def body_inner(html):
@@ -59,12 +68,19 @@ def body_inner(html):
     return html[a:b]
 
 
+# quick tier: all pairs over QUICK14, plus all triples over a small alphabet built around the blocks with code paths of their own
+TRIPLE8 = ["sec", "sec-bg", "sec-fw", "wrap", "sec-right", "sec-bg-right", "sec-fw-class", "raw"]
+
+
 def sequences(quick):
     names = QUICK14 if quick else list(BLOCKS)
     maxlen = 2 if quick else 3
     out = []
     for n in range(1, maxlen + 1):
         out += [list(t) for t in itertools.product(names, repeat=n)]
+    if quick:
+        out += [[n] for n in TRIPLE8 if n not in names]
+        out += [list(t) for t in itertools.product(TRIPLE8, repeat=3)]
     return out
 
 
